@@ -115,46 +115,72 @@ pub fn builtin_function<NumericTypes: EvalexprNumericTypes>(
         })),
         "min" => Some(Function::new(|argument| {
             let arguments = argument.as_tuple()?;
-            let mut min_int = NumericTypes::Int::MAX;
-            let mut min_float = NumericTypes::Float::MAX;
-            debug_assert!(min_float.is_infinite());
+            let mut min_int: Option<NumericTypes::Int> = None;
+            let mut min_float: Option<NumericTypes::Float> = None;
 
             for argument in arguments {
                 if let Value::Float(float) = argument {
-                    min_float = min_float.min(&float);
+                    min_float = Some(match min_float {
+                        Some(min_float) => min_float.min(&float),
+                        None => float,
+                    });
                 } else if let Value::Int(int) = argument {
-                    min_int = min_int.min(int);
+                    min_int = Some(match min_int {
+                        Some(min_int) => min_int.min(int),
+                        None => int,
+                    });
                 } else {
                     return Err(EvalexprError::expected_number(argument));
                 }
             }
 
-            if (NumericTypes::int_as_float(&min_int)) < min_float {
-                Ok(Value::Int(min_int))
-            } else {
-                Ok(Value::Float(min_float))
+            // The result is always one of the arguments, never a placeholder value
+            match (min_int, min_float) {
+                (Some(min_int), Some(min_float)) => {
+                    if (NumericTypes::int_as_float(&min_int)) < min_float {
+                        Ok(Value::Int(min_int))
+                    } else {
+                        Ok(Value::Float(min_float))
+                    }
+                },
+                (Some(min_int), None) => Ok(Value::Int(min_int)),
+                (None, Some(min_float)) => Ok(Value::Float(min_float)),
+                (None, None) => Err(EvalexprError::wrong_function_argument_amount(0, 1)),
             }
         })),
         "max" => Some(Function::new(|argument| {
             let arguments = argument.as_tuple()?;
-            let mut max_int = NumericTypes::Int::MIN;
-            let mut max_float = NumericTypes::Float::MIN;
-            debug_assert!(max_float.is_infinite());
+            let mut max_int: Option<NumericTypes::Int> = None;
+            let mut max_float: Option<NumericTypes::Float> = None;
 
             for argument in arguments {
                 if let Value::Float(float) = argument {
-                    max_float = max_float.max(&float);
+                    max_float = Some(match max_float {
+                        Some(max_float) => max_float.max(&float),
+                        None => float,
+                    });
                 } else if let Value::Int(int) = argument {
-                    max_int = max_int.max(int);
+                    max_int = Some(match max_int {
+                        Some(max_int) => max_int.max(int),
+                        None => int,
+                    });
                 } else {
                     return Err(EvalexprError::expected_number(argument));
                 }
             }
 
-            if (NumericTypes::int_as_float(&max_int)) > max_float {
-                Ok(Value::Int(max_int))
-            } else {
-                Ok(Value::Float(max_float))
+            // The result is always one of the arguments, never a placeholder value
+            match (max_int, max_float) {
+                (Some(max_int), Some(max_float)) => {
+                    if (NumericTypes::int_as_float(&max_int)) > max_float {
+                        Ok(Value::Int(max_int))
+                    } else {
+                        Ok(Value::Float(max_float))
+                    }
+                },
+                (Some(max_int), None) => Ok(Value::Int(max_int)),
+                (None, Some(max_float)) => Ok(Value::Float(max_float)),
+                (None, None) => Err(EvalexprError::wrong_function_argument_amount(0, 1)),
             }
         })),
         "if" => Some(Function::new(|argument| {
